@@ -144,6 +144,7 @@ CLI_CONFIGS = {
     'focus': ('plain', ['--data_source', 'csv-raw', '--feature_set_focus', 'c,a,b', '--target_ranking_only', 'False', '--heuristic', 'MI-numba-randomized']),
     'multivalue': ('plain', ['--data_source', 'csv-raw', '--feature_set_focus', 'm,a', '--explode_multivalue_features', 'm', '--target_ranking_only', 'False', '--heuristic', 'MI-numba-randomized']),
     'transformers': ('transformers', ['--data_source', 'ob-csv', '--transformers', 'minimal', '--target_ranking_only', 'False', '--heuristic', 'MI-numba-randomized']),
+    'capped': ('plain', ['--data_source', 'csv-raw', '--target_ranking_only', 'False', '--heuristic', 'MI-numba-randomized', '--combination_number_upper_bound', '4', '--minibatch_size', '10']),
     'subfeature_noise': ('plain', ['--data_source', 'csv-raw', '--subfeature_mapping', 'a->b', '--include_noise_baseline_features', 'True', '--target_ranking_only', 'True', '--heuristic', 'MI']),
 }
 
@@ -181,6 +182,16 @@ def run(ctx):
                 mode = f'deviations<={bound}'
             plan.append((cfg, W, k, len(scheds), mode))
             jobs += [(cfg, W, scheds[i::16], base) for i in range(16) if scheds[i::16]]
+    for cfg in CONFIGS:
+        c = CONFIGS[cfg]
+        over = dict(c['over'])
+        over['include_cardinality_in_feature_names'] = 'False'
+        inl = observe(pipeline.run_task(data_text(16, c['cols']), over))
+        v1 = run_schedule(cfg, 1, ())[0]
+        ctx.stats.count('evaluations')
+        if inl != v1:
+            ctx.stats.violation({'kind': 'schedule', 'config': cfg, 'W': 1, 'schedule': [], 'inline': True},
+                                f'{cfg}: one isolated worker process gives a result different from in-process evaluation (process-local state leaks into the scores)', {'kind': 'worker_state_dependent', 'config': cfg})
     base1 = run_schedule('target', 1, ())[0]
     for W in (2, 3):
         if run_schedule('target', W, ())[0]['pairwise'] != base1['pairwise']:
@@ -245,6 +256,11 @@ def eval_case(case):
         base, _, _ = run_schedule(case['config'], case['W'], ())
         if case['W'] > 1 and not case['schedule']:
             base = run_schedule(case['config'], 1, ())[0]
+        if case.get('inline'):
+            c = CONFIGS[case['config']]
+            over = dict(c['over'])
+            over['include_cardinality_in_feature_names'] = 'False'
+            base = observe(pipeline.run_task(data_text(16, c['cols']), over))
         ob, _, _ = run_schedule(case['config'], case['W'], case['schedule'])
         return [] if ob == base else [f'schedule {case["schedule"]} gives a result different from the sequential schedule']
     root = scratch_dir('c09r')
